@@ -46,10 +46,13 @@ Raise(x)  == [k |-> "raise", reason |-> "", exc |-> x, who |-> "", n |-> 0]
 \* ================================================================ member outcomes and chain semantics
 (* outcome alphabet of a member on one request:
      ok                                           returns its own AuthContext
+     anon                                         returns its own AuthContext with authenticated = FALSE (still an acceptance:
+                                                  "Credentials accepted: returns AuthContext, stops chain")
      miss inv exp scope proxy unauth              AuthFailure(reason)            (ValueError class: falls through)
      ve  ve_sub                                   bare ValueError / a ValueError subclass (falls through, "unauthorized")
      pe  rt  down                                 PermissionError / RuntimeError / AuthUnavailableError (propagate)      *)
-AllOuts == {"ok", "miss", "inv", "exp", "scope", "proxy", "unauth", "ve", "ve_sub", "pe", "rt", "down"}
+AllOuts == {"ok", "anon", "miss", "inv", "exp", "scope", "proxy", "unauth", "ve", "ve_sub", "pe", "rt", "down"}
+IsAcc(o) == o \in {"ok", "anon"}
 VEClass(o) == o \in {"miss", "inv", "exp", "scope", "proxy", "unauth", "ve", "ve_sub"}
 ReasonOf(o) == CASE o = "miss" -> "missing_credential" [] o = "inv" -> "invalid_credential"
                  [] o = "exp" -> "expired_credential"  [] o = "scope" -> "insufficient_scope"
@@ -63,7 +66,7 @@ Combine(codes) == IF Len(codes) = 0 THEN "unauthorized"
                                codes[j] # "missing_credential" /\ \A l \in 1..(j - 1) : codes[l] = "missing_credential"]
 
 \* what a single member does when called directly
-LeafRes(o, who) == IF o = "ok" THEN Acc(who)
+LeafRes(o, who) == IF IsAcc(o) THEN Acc(who)
                    ELSE IF o \in {"ve", "ve_sub", "pe", "rt", "down"} THEN Raise(ExcOf(o))
                    ELSE Rej(ReasonOf(o))
 
@@ -71,7 +74,7 @@ RECURSIVE ChainFrom(_, _, _, _)
 \* outs: sequence of member outcomes; whos: the tag of each member's context; n = number of members invoked
 ChainFrom(outs, whos, i, codes) ==
   IF i > Len(outs) THEN [Rej(Combine(codes)) EXCEPT !.n = Len(outs)]
-  ELSE IF outs[i] = "ok" THEN [Acc(whos[i]) EXCEPT !.n = i]
+  ELSE IF IsAcc(outs[i]) THEN [Acc(whos[i]) EXCEPT !.n = i]
   ELSE IF VEClass(outs[i]) THEN ChainFrom(outs, whos, i + 1, Append(codes, ReasonOf(outs[i])))
   ELSE [Raise(ExcOf(outs[i])) EXCEPT !.n = i]
 Idx(n) == [i \in 1..n |-> ToString(i)]
@@ -130,13 +133,13 @@ CombineExpected(c) == [code |-> Combine(c.codes)]
 CombineConforms(c, o) == Viol("RejectReasonAsDocumented", o.code = Combine(c.codes))
 
 \* ================================================================ family "chain" (stub members)
-QuickOuts == {"ok", "miss", "inv", "exp", "ve", "pe", "rt", "down"}
+QuickOuts == {"ok", "anon", "miss", "inv", "exp", "ve", "pe", "rt", "down"}
 FourOuts == {"ok", "miss", "inv", "exp", "ve", "pe"}
 ChainCases == [fam : {"chain"}, ms : SeqsUpTo(IF Deep THEN AllOuts ELSE QuickOuts, 3) \ {<<>>}]
               \cup (IF Deep THEN [fam : {"chain"}, ms : {s \in SeqsUpTo(FourOuts, 4) : Len(s) = 4}] ELSE {})
 ChainExpected(c) == ChainEval(c.ms)
-Quiet(ms) == \A i \in 1..Len(ms) : ms[i] = "ok" \/ VEClass(ms[i])
-NAccepters(ms) == Cardinality({i \in 1..Len(ms) : ms[i] = "ok"})
+Quiet(ms) == \A i \in 1..Len(ms) : IsAcc(ms[i]) \/ VEClass(ms[i])
+NAccepters(ms) == Cardinality({i \in 1..Len(ms) : IsAcc(ms[i])})
 Substantive(ms) == {ReasonOf(ms[i]) : i \in {j \in 1..Len(ms) : VEClass(ms[j]) /\ ms[j] # "miss"}}
 (* the order of the members may change the answer only as documented: which accepter wins when there are several,
    which substantive reason is reported when there are several, and whether an acceptance or a propagating exception
@@ -170,7 +173,7 @@ T_MissingIffAllMissing(c) ==
      (e.k = "reject" /\ e.reason = "missing_credential") <=> (\A i \in 1..Len(c.ms) : c.ms[i] = "miss")
 T_AcceptIffAccepterBeforePropagation(c) ==
   c.fam = "chain" => ((ChainEval(c.ms).k = "accept") <=>
-                      \E i \in 1..Len(c.ms) : c.ms[i] = "ok" /\ \A j \in 1..(i - 1) : VEClass(c.ms[j]))
+                      \E i \in 1..Len(c.ms) : IsAcc(c.ms[i]) /\ \A j \in 1..(i - 1) : VEClass(c.ms[j]))
 
 \* ================================================================ family "ctor"
 FpAlgs == {"sha256", "sha1", "sha384", "sha512"}
